@@ -744,6 +744,13 @@ class InterpBuiltins:
         if isinstance(d, (ListV, SetV, SymSet, DictV, ValuesView)):
             vars_, guard, val = self.generic_iter(d)
             return vars_, guard, val
+        if isinstance(d, str):
+            # 'List[T]' : quantifies over the allocated list objects (any list reference, viewed as a list of T)
+            ty = self.ts.ann_to_type(ast.parse(d, mode='eval').body, 'commander')
+            if isinstance(ty, TList):
+                c = z3.Const('q' + name, Ref)
+                g = z3.And(c != NULL, self.heap.get('alloc', arr(Ref, B))[c], kind_of(c) == KINDS['list'])
+                return [c], g, ListV(c, ty.t)
         if isinstance(d, (ConstSeq, tuple)):
             raise Unsupported('quantifier over a constant sequence: use all(...)')
         raise Unsupported(f'quantifier domain {d!r:.40}')
@@ -796,7 +803,11 @@ class InterpBuiltins:
 
     def bi_no_effect(self, args, kw, line):
         """no_effect() : the ghost effect log is empty;  no_effect('send_start_process', ...) : none of these.
-        Effects declared for the other iterations of a symbolic loop (loop<K>_effects) count as 'possibly emitted'."""
+        Effects declared for the other iterations of a symbolic loop (loop<K>_effects) count as 'possibly emitted';
+        after a loop whose iterations emit UNDECLARED effects the answer is unknown."""
+        if getattr(self, 'effects_unknown', None):
+            # iterations of an earlier loop emitted effects this path's log does not contain: the answer is unknown
+            return SV(self.run.fresh('no_effect_unknown', B), BOOL)
         from .loops import LoopEffects
         mine = [(nme, a) for nme, a in self.effects[len(self.effects_base):] if not args or nme in args]
         if any(not isinstance(a, LoopEffects) for _, a in mine):
@@ -805,12 +816,20 @@ class InterpBuiltins:
             return self.bool_value(self.conj([z3.Not(a.some) for _, a in mine]))
         return True
 
+    def _effects_known(self):
+        tag = getattr(self, 'effects_unknown', None)
+        if tag:
+            raise Unsupported(f'effect query after {tag}, whose iterations emit effects: the effect log of this path does '
+                              f'not contain them (state the per-iteration effects in loop<K>_iter)')
+
     def bi_count_effects(self, args, kw, line):
+        self._effects_known()
         if self._loop_markers(args):
             raise Unsupported('count_effects of an effect emitted inside a loop over a symbolic collection')
         return sum(1 for nme, _ in self.effects[len(self.effects_base):] if nme in args)
 
     def bi_effect_at(self, args, kw, line):
+        self._effects_known()
         nme, k = args[0], args[1] if len(args) > 1 else 0
         if self._loop_markers((nme,)):
             raise Unsupported('effect_at of an effect emitted inside a loop over a symbolic collection')
